@@ -85,8 +85,17 @@ func (p c08) Gen(c *run.Ctx, idx int) (json.RawMessage, error) {
 			prof := coreOpProfile()
 			prof.Depth, prof.Width, prof.ForceName, prof.Kind, prof.PMultiOp = 2, 2, name, ast.Mutation, 0
 			op = genCoreOp(r, cu.mono, prof)
-		case k == 6:
+		case k == 6 && i%2 == 0:
 			op = &gen.Op{Query: "query " + name + " { __schema { queryType { name } types { name kind } } }", OperationName: name}
+		case k == 6:
+			// introspection fed by variables: every operation of the batch reads its own values
+			var tns []string
+			for n := range cu.mono.Types {
+				tns = append(tns, n)
+			}
+			sort.Strings(tns)
+			op = &gen.Op{Query: "query " + name + "($n: String!, $d: Boolean!) { __type(name: $n) { name kind fields(includeDeprecated: $d) { name } enumValues(includeDeprecated: $d) { name } } }", OperationName: name,
+				Variables: map[string]any{"n": pick(r, tns), "d": r.Intn(2) == 0}}
 		case k == 7:
 			op = &gen.Op{Query: pick(r, []string{"{ nope }", "query " + name + " { __typename { x } }", "query { ...Missing }", "{ __typename", "query(" + "$v: Nope) { __typename }"})}
 		case k == 8:
@@ -295,6 +304,10 @@ func (p c08) Exec(c *run.Ctx, idx int, raw json.RawMessage) []run.Result {
 	}
 	batchMark := r.Log.Len()
 	body, _ := json.Marshal(opsToWire(sp.Ops))
+	if sp.Jitter%4 == 0 {
+		// a pretty-printed / templated body: JSON allows white space around the array
+		body = append([]byte("\n  "), append(body, []byte(" \n")...)...)
+	}
 	done := make(chan *rig.HTTPResult, 1)
 	go func() { done <- r.Do("application/json", body) }()
 	go func() {
